@@ -376,7 +376,7 @@ def run(ctx):
     # non-vacuity: the model of the code before the two fixes must be refuted; the shadow class must be in the space.
     # The five TLC runs are independent and run side by side.
     nd = ndecl(2)
-    npairs, ntriples = (50, 120) if not T else (0, 2200)
+    npairs, ntriples = (40, 90) if not T else (0, 2200)
     picks = set()
     while len(picks) < npairs:
         picks.add(tuple(sorted(ctx.rng.sample(range(1, nd + 1), 2))))
